@@ -32,6 +32,7 @@ fn main() {
             let id = toks[0].to_string();
             let out = match std::panic::catch_unwind(|| match toks[1] {
                 "flw" => flw::run_case(toks[0], &toks[2..]),
+                "tryfrom" => flw::run_tryfrom(toks[0], &toks[2..]),
                 "spec" => lg::run_spec(&toks[2..]),
                 "specb" => lg::run_specb(&toks[2..]),
                 "lg" => lg::run_lg(toks[0], &toks[2..]),
